@@ -15,9 +15,9 @@ use dnp3::verif_shim as shim;
 use crate::codec;
 use crate::common::*;
 
-struct Rh {
-    rec: Recorder,
-    assoc: u16,
+pub struct Rh {
+    pub rec: Recorder,
+    pub assoc: u16,
 }
 
 fn read_type(t: ReadType) -> &'static str {
@@ -102,10 +102,10 @@ impl ReadHandler for Rh {
     }
 }
 
-struct Ah {
-    clock: Clock,
-    base: Arc<Mutex<Option<u64>>>,
-    rec: Recorder,
+pub struct Ah {
+    pub clock: Clock,
+    pub base: Arc<Mutex<Option<u64>>>,
+    pub rec: Recorder,
 }
 
 impl AssociationHandler for Ah {
@@ -116,9 +116,9 @@ impl AssociationHandler for Ah {
     }
 }
 
-struct Ai {
-    rec: Recorder,
-    assoc: u16,
+pub struct Ai {
+    pub rec: Recorder,
+    pub assoc: u16,
 }
 
 fn task_name(t: TaskType) -> String {
@@ -141,7 +141,7 @@ impl AssociationInformation for Ai {
 }
 
 /// short stable name of an error (variant name without payload)
-fn err_name(dbg: &str) -> String {
+pub fn err_name(dbg: &str) -> String {
     let s = dbg.split(|c| c == '(' || c == '{' || c == ' ' || c == ')').next().unwrap_or(dbg);
     s.to_string()
 }
@@ -157,7 +157,7 @@ fn ev_classes(v: &Value, dflt: bool) -> EventClasses {
     }
 }
 
-fn classes(v: &Value, dflt: bool) -> Classes {
+pub fn classes(v: &Value, dflt: bool) -> Classes {
     match v.as_array() {
         Some(a) => Classes::new(
             a.first().and_then(|x| x.as_bool()).unwrap_or(dflt),
@@ -171,7 +171,7 @@ fn classes(v: &Value, dflt: bool) -> Classes {
     }
 }
 
-fn assoc_config(a: &Value) -> AssociationConfig {
+pub fn assoc_config(a: &Value) -> AssociationConfig {
     let mut c = AssociationConfig::new(
         ev_classes(&a["disable_unsol"], true),
         ev_classes(&a["enable_unsol"], true),
